@@ -99,3 +99,21 @@ Fixpoint nondec (l : list N) : bool :=
   | a :: ((b :: _) as t) => (a <=? b) && nondec t
   | _ => true
   end.
+
+(* Node.FixFrame: re-encode, recompute checksum and (v2 frame, outgoing key) signature *)
+Definition fix_frame (d : option dialect) (outkey : option (list N)) (f : frame) : res frame :=
+  rbind (encode_in_frame d f) (fun f1 =>
+    match d with
+    | None => Err err_no_dialect
+    | Some dl =>
+      let '(id, p) := raw_of f1 in
+      match dlookup dl id with
+      | None => Err err_not_in_dialect
+      | Some c =>
+        let f2 := set_ck f1 (gen_checksum f1 id p (c_crc c)) in
+        Ok (match outkey with
+            | Some k => if f_v2 f2 then set_sig f2 (f_link f2) (f_ts f2) (Some (gen_signature k f2 id p)) else f2
+            | None => f2
+            end)
+      end
+    end).
